@@ -60,6 +60,43 @@ theorem setResult_never_panics (r : Run) (wf : WF r) (ops : List Op) (g : Grp) (
   rw [((inv_after wf ops).owner g l h).1]
   simp
 
+/-- **cancel_only_when_unneeded**: `setResult` calls the cancel function of a pending request only when no group of
+that request's log still needs an SCT (`groupNeeds ≤ 0` for every group of the log, after the update) — the only
+cancellation of an in-flight request besides the caller's own context. With `needs_accounting`, each of those groups
+then already holds its minimum. -/
+theorem cancel_only_when_unneeded (c : Cfg) (s s' : Sub) (l : Log) (ok : Bool) (called : List Log)
+    (h : setResult c s l ok = some (s', called)) :
+    ∀ l' ∈ called, s.cancels l' = true ∧ ∀ g ∈ groupsOf c l', s'.needs g ≤ 0 := by
+  unfold setResult at h
+  cases ok
+  · simp at h
+    intro l' hl'
+    rw [h.2] at hl'
+    cases hl'
+  · simp only [Bool.not_true, Bool.false_eq_true, if_false, Option.map_eq_some_iff] at h
+    obtain ⟨s2, h2, hc⟩ := h
+    unfold afterCancel at hc
+    simp only [Prod.mk.injEq] at hc
+    obtain ⟨hs', hcalled⟩ := hc
+    intro l' hl'
+    rw [← hcalled] at hl'
+    simp only [List.mem_filter, Bool.and_eq_true, Bool.not_eq_true'] at hl'
+    have hcan : s.cancels l' = true := by
+      have := (afterBase_spec h2).2.2.2.2.2
+      rw [this] at hl'
+      exact hl'.2.1
+    refine ⟨hcan, ?_⟩
+    intro g hg
+    have hna := hl'.2.2
+    unfold awaited at hna
+    rw [List.any_eq_false] at hna
+    have := hna g hg
+    rw [← hs']
+    simpa using this
+
+example : ∃ s' called, setResult cfg2 (request cfg2 (request cfg2 (Sub.init cfg2) 1).1 2).1 1 true = some (s', called) ∧
+    called = [] := ⟨_, _, rfl, by decide⟩
+
 /-- Every contacted log is in the session of some group of the call, hence a member of that group. -/
 theorem contacted_in_groups (r : Run) (wf : WF r) (ops : List Op) (l : Log) (h : l ∈ (after r ops).submitted) :
     ∃ g ∈ r.cfg, l ∈ r.session g.name ∧ l ∈ g.logs := by
